@@ -32,3 +32,45 @@ func init() {
 		Rule:      "seeded configurations (1..3 pipelines, 0..2 filters each incl. a shared filter, formatter, sink; ~25% of nodes block at a gate) x cancel points {before call, never, k-th hook hit}; seeded yields at hooks; non-trivial = configuration with a blocking node or a cancel point; distinct = (configuration, hook at which the cancel landed).",
 	})
 }
+
+func init() {
+	reg("C06", &prop{
+		Pkg: "broker", Test: "TestC06", QuickBatches: 8, ThoroughBatches: 64,
+		QuickTimeoutS: 400, ThoroughTimeoutS: 3000, GoMaxProcs: []int{2}, Parallel: 16,
+		Level: "exploration", DesignRef: "DESIGN.md section 4, C06",
+		Technique: "runtime monitoring against an executable reference model: every history is executed on the real Broker step by step next to a clean registry model; Close calls are observed per node object; in-use accounting is decided by destructive RemoveNode probes on a replayed copy after every step",
+		LevelText: "Exploration by execution with a reference model: all call histories up to depth 3 (quick) / 4 (thorough) over a reduced alphabet (2 types, 2 pipeline ids, 3 node ids, a node list with a duplicate id) are enumerated exhaustively, one level deeper is sampled, and seeded random histories of up to 60 calls run over the quantifier's full alphabet. After EVERY step the return value, the set of node objects closed (exactly those no remaining pipeline lists, once each), delivery to the remaining pipelines and - on a fresh replay of the prefix - the result of RemoveNode for every id are compared with the model. The property's 'depth 7 exhaustively' is out of reach for execution (22^7 histories); evidence says exhaustive:false and reports the depth reached.",
+		LevelNote: "Trusted: the reference model (written from the property statement), recording nodes. Close is attributed to the node object currently registered under an id. VerifSnapshot (private counters) is recorded in witnesses for diagnosis only, never used for the verdict.",
+		Rule:      "exhaustive histories (prologue registering a,m,k + every sequence of up to depth D over 22 calls), PRNG-sampled histories of depth D+1, random histories of 4..60 calls (registry-biased generator: duplicates, overwrites, re-registration of listed node ids, removals of existing pipelines). Non-trivial: every history; distinct = distinct (call sequence, trajectory of model sizes).",
+	})
+}
+
+func init() {
+	reg("C05", &prop{
+		Pkg: "broker", Test: "TestC05", QuickBatches: 8, ThoroughBatches: 32,
+		QuickTimeoutS: 400, ThoroughTimeoutS: 2400, GoMaxProcs: []int{2}, Parallel: 16,
+		Level: "exploration", DesignRef: "DESIGN.md section 4, C05",
+		Technique: "runtime monitoring against an executable specification predicate (exhaustive over node-type sequences) plus differential observation of replayed histories with and without the failing call",
+		LevelText: "Exploration by execution: (1) the acceptance predicate of the property statement is evaluated next to the real RegisterPipeline for ALL node-type sequences of length 1..5 over {filter, formatter, sink, formatter-filter, unknown 0, unknown 9} (9330 sequences) x {all ids registered, one missing, one empty id, empty pipeline id, empty type, empty list} x {no previous pipeline, previous Allow, previous Deny}; (2) seeded random histories of <=6 calls (+prologue) ending in a failing RegisterPipeline/RegisterNode/RemoveNode or RemovePipelineAndNodes=false are replayed on two fresh brokers with and without the failing call and the externally observable state (what a Send of each type delivers to, IsAnyPipelineRegistered, result class of a destructive RemoveNode probe per node id, which objects get closed) must be identical; IsAnyPipelineRegistered is compared with the model after every step.",
+		LevelNote: "Trusted: the predicate transcribed from the property statement, recording nodes. Part (1) is exhaustive for its finite space (every run enumerates it completely across its batches); part (2) is sampled. Node Close never fails in this check (C05 and C06 read differently on RemoveNode with a failing Close).",
+		Rule:      "part 1: exhaustive enumeration (each batch takes every NBatch-th sequence; all batches together cover all 9330 x 6 x 3 cases); part 2: random histories from the registry-biased generator with 45% malformed definitions and invalid policies. Non-trivial: every acceptance case and every failing call checked; distinct = distinct (type sequence, variant, previous policy) resp. (failing op kind, observable state).",
+	})
+	reg("C07", &prop{
+		Pkg: "broker", Test: "TestC07", QuickBatches: 8, ThoroughBatches: 64,
+		QuickTimeoutS: 400, ThoroughTimeoutS: 3000, GoMaxProcs: []int{2, 4, 16}, Parallel: 16,
+		Level: "exploration", DesignRef: "DESIGN.md section 4, C07",
+		Technique: "runtime monitoring against a reference model of registration policies (exhaustive short histories + sampled longer ones), plus concurrent overwrite-vs-Send histories with versioned marker nodes checked for exactly-one-version delivery and linearizability (porcupine)",
+		LevelText: "Exploration by execution: every history of up to 4 (quick) / 5 (thorough) calls over {RegisterNode f x 4 policies (allow, deny, default, invalid), RegisterPipeline t0/p0 with two node lists x 4 policies, re-registration of m and k, a second type's pipeline, RemoveNode, RemovePipeline, RemovePipelineAndNodes}, with and without a prologue, is run next to a reference model; every return value must match and after every step a Send per type must be processed by exactly the node objects the surviving registrations captured (object identity). Concurrent part: one goroutine overwrites (t,p) v1..vn while senders run; per Send exactly one version's marker may fire and the register history must be linearizable.",
+		LevelNote: "Trusted: reference model, recording nodes, porcupine v1.3.0. Schedules of the concurrent part are sampled (phase-aligned start, GOMAXPROCS 2/4/16).",
+		Rule:      "sequential: exhaustive enumeration of policy histories to depth D, PRNG-sampled histories of depth D+1..10; concurrent: seeded overwrite/sender programs. Non-trivial: every history; distinct = distinct (call sequence, trajectory of results).",
+	})
+	reg("C20", &prop{
+		Pkg: "broker", Test: "TestC20", QuickBatches: 8, ThoroughBatches: 32,
+		QuickTimeoutS: 300, ThoroughTimeoutS: 1800, GoMaxProcs: []int{2}, Parallel: 16,
+		Level: "fault_enumeration", DesignRef: "DESIGN.md section 4, C20",
+		Technique: "runtime monitoring with single-fault enumeration: registry states produced by random histories next to a reference model; Reopen counted per node object; each captured node object is made to fail in turn",
+		LevelText: "Fault enumeration by execution: registry states reached by seeded random histories of up to 8 calls (+prologue; 3 types, shared nodes, overwritten node ids whose old objects are still captured by older pipeline versions, removed pipelines) are tracked by a reference model that knows which node OBJECTS each registered pipeline captured. Without faults Broker.Reopen must return nil and every captured object's Reopen count must grow; then for EACH captured object in turn its Reopen returns a unique error and Broker.Reopen must return a non-nil error that carries it (errors.Is or its unique token); objects captured by no registered pipeline may fail without consequence.",
+		LevelNote: "Trusted: reference model and recording nodes. The fault space (which single object fails) is enumerated completely for every generated state; the state space is sampled.",
+		Rule:      "seeded random registry histories; per state: 1 fault-free Reopen + one Reopen per captured object failing + one with all unreferenced objects failing. Non-trivial = state with >=2 captured objects; distinct = distinct history.",
+	})
+}
